@@ -164,6 +164,52 @@ func HashRules(c *core.Ctx, p *packages.Package) {
 					}
 					return true
 				})
+				// nil vs empty: a hash that singles out the nil container must be matched by an equality that does
+				if why == "" && len(fl.Type.Params.List) == 1 && len(fl.Type.Params.List[0].Names) == 1 {
+					hp := info.Defs[fl.Type.Params.List[0].Names[0]]
+					isCont := false
+					if hp != nil {
+						switch hp.Type().Underlying().(type) {
+						case *types.Slice, *types.Map:
+							isCont = true
+						}
+					}
+					nilTest := func(body ast.Node, pinfo *types.Info, isOperand func(types.Object) bool) bool {
+						return nodeContains(body, true, func(y ast.Node) bool {
+							be, ok := y.(*ast.BinaryExpr)
+							if !ok || (be.Op != token.EQL && be.Op != token.NEQ) {
+								return false
+							}
+							a, b := ast.Unparen(be.X), ast.Unparen(be.Y)
+							if isNilIdent(pinfo, a) {
+								a, b = b, a
+							}
+							o := objOf(pinfo, a)
+							return isNilIdent(pinfo, b) && o != nil && isOperand(o)
+						})
+					}
+					if isCont && nilTest(fl.Body, info, func(o types.Object) bool { return o == hp }) {
+						eqDistinguishes := false
+						if ecall, ok := ast.Unparen(call.Args[0]).(*ast.CallExpr); ok {
+							if ef := calleeOf(info, ecall); ef != nil {
+								if fd := c.FuncDecl(ef.Origin()); fd != nil && fd.Body != nil {
+									if ep := c.ByPath[ef.Pkg().Path()]; ep != nil {
+										eqDistinguishes = nilTest(fd.Body, ep.TypesInfo, func(o types.Object) bool {
+											switch o.Type().Underlying().(type) {
+											case *types.Slice, *types.Map:
+												return true
+											}
+											return false
+										})
+									}
+								}
+							}
+						}
+						if !eqDistinguishes {
+							why = "gives the nil " + hp.Name() + " a hash of its own (`" + hp.Name() + " == nil`) although the equality " + exprString(call.Args[0]) + " does not distinguish nil from empty: Eqv(nil, empty) holds but the hashes differ"
+						}
+					}
+				}
 				if why == "" {
 					c.Add("R-HASHDET", key, fl.Pos(), core.Discharged, "deterministic function of the value")
 				} else {
